@@ -234,56 +234,8 @@ func rectilinear(k int, combos [][2]bool) (holed [][][]oracle.Pt, rects [][][]or
 
 // curved shapes (raw data): circles, ellipses (also rotated), rounded rectangles, a lens of two
 // arcs, a quadratic and a cubic blob; at lattice offsets so that they touch and overlap.
-func curvedShapes() [][]float64 {
-	arc := func(d []float64, rx, ry, phiDeg float64, large, sweep bool, x, y float64) []float64 {
-		f := 0.0
-		if large {
-			f += 1
-		}
-		if sweep {
-			f += 2
-		}
-		return append(d, oracle.CmdArc, rx, ry, phiDeg*math.Pi/180, f, x, y, oracle.CmdArc)
-	}
-	ellipse := func(cx, cy, rx, ry, phiDeg float64, ccw bool) []float64 {
-		c, sn := math.Cos(phiDeg*math.Pi/180), math.Sin(phiDeg*math.Pi/180)
-		x0, y0 := cx+rx*c, cy+rx*sn
-		x1, y1 := cx-rx*c, cy-rx*sn
-		d := []float64{oracle.CmdMove, x0, y0, oracle.CmdMove}
-		d = arc(d, rx, ry, phiDeg, false, ccw, x1, y1)
-		d = arc(d, rx, ry, phiDeg, false, ccw, x0, y0)
-		return append(d, oracle.CmdClose, x0, y0, oracle.CmdClose)
-	}
-	rrect := func(x, y, w, h, r float64) []float64 {
-		d := []float64{oracle.CmdMove, x + r, y, oracle.CmdMove, oracle.CmdLine, x + w - r, y, oracle.CmdLine}
-		d = arc(d, r, r, 0, false, true, x+w, y+r)
-		d = append(d, oracle.CmdLine, x+w, y+h-r, oracle.CmdLine)
-		d = arc(d, r, r, 0, false, true, x+w-r, y+h)
-		d = append(d, oracle.CmdLine, x+r, y+h, oracle.CmdLine)
-		d = arc(d, r, r, 0, false, true, x, y+h-r)
-		d = append(d, oracle.CmdLine, x, y+r, oracle.CmdLine)
-		d = arc(d, r, r, 0, false, true, x+r, y)
-		return append(d, oracle.CmdClose, x+r, y, oracle.CmdClose)
-	}
-	var out [][]float64
-	for _, c := range [][2]float64{{2, 2}, {3, 2}, {4, 3}} {
-		out = append(out, ellipse(c[0], c[1], 2, 2, 0, true), ellipse(c[0], c[1], 1, 1, 0, false), ellipse(c[0], c[1], 3, 1.5, 0, true), ellipse(c[0], c[1], 3, 1.5, 30, true))
-		out = append(out, rrect(c[0]-2, c[1]-1, 4, 2, 0.5))
-	}
-	out = append(out,
-		// lens
-		append(arc(arc([]float64{oracle.CmdMove, 0, 0, oracle.CmdMove}, 3, 3, 0, false, true, 4, 0), 3, 3, 0, false, true, 0, 0), oracle.CmdClose, 0, 0, oracle.CmdClose),
-		// quadratic and cubic blobs
-		[]float64{oracle.CmdMove, 0, 0, oracle.CmdMove, oracle.CmdQuad, 3, 5, 6, 0, oracle.CmdQuad, oracle.CmdQuad, 3, -2, 0, 0, oracle.CmdQuad, oracle.CmdClose, 0, 0, oracle.CmdClose},
-		[]float64{oracle.CmdMove, 1, 1, oracle.CmdMove, oracle.CmdCube, 1, 4, 5, 4, 5, 1, oracle.CmdCube, oracle.CmdCube, 4, -1, 2, -1, 1, 1, oracle.CmdCube, oracle.CmdClose, 1, 1, oracle.CmdClose},
-		// flat partners
-		oracle.ClosedData(rect(1, 1, 4, 3, true)), oracle.ClosedData(rect(2, 0, 3, 5, false)),
-	)
-	return out
-}
-
 func curvedFamily() fw.Family {
-	sh := curvedShapes()
+	sh := c02.CurvedShapes()
 	n := int64(len(sh))
 	return fw.Family{
 		Name: "curved shapes (circles, ellipses, rounded rectangles, lens, Bezier blobs) x the same", N: n * n,
